@@ -11,6 +11,25 @@ set_option linter.unusedSimpArgs false
 
 def a0 (tag : Tag) (dls : List Sys) : Active := { tag := tag, defaults := dls }
 
+/-- the name `n` is known when a reference to it appears after the items `pre` -/
+def KnownAt (s0 : St) (n : String) (pre : List (Src.Reg × Src.Item)) : Prop :=
+  (s0.named.lookup n).isSome = true ∨ ∃ reg l, (reg, Src.Item.defn l) ∈ pre ∧ l.name = some n
+
+def RefsBack (s0 : St) (wout : List (Src.Reg × Src.Item)) : Prop :=
+  ∀ pre reg n post, wout = pre ++ (reg, Src.Item.ref n) :: post → KnownAt s0 n pre
+
+theorem RefsBack.snoc {s0 : St} {wout : List (Src.Reg × Src.Item)} (h : RefsBack s0 wout) (x : Src.Reg × Src.Item)
+    (hx : ∀ reg n, x = (reg, .ref n) → KnownAt s0 n wout) : RefsBack s0 (wout ++ [x]) := by
+  intro pre reg n post he
+  rcases List.eq_nil_or_concat post with rfl | ⟨post', y, rfl⟩
+  · have := List.append_inj' he (by simp)
+    simp only [List.cons.injEq, and_true] at this
+    obtain ⟨rfl, rfl⟩ := this
+    exact hx reg n rfl
+  · rw [List.concat_eq_append, ← List.cons_append, ← List.append_assoc] at he
+    have := List.append_inj' he (by simp)
+    exact h pre reg n post' this.1
+
 structure OutInv (fx : Fixes) (U : List (List Glyph)) (tag : Tag) (dls : List Sys) (s0 : St)
     (wout : List (Src.Reg × Src.Item)) (s : St) (evs : List Ev) (ids : List LookupId) (used : List String) : Prop where
   idsInv : IdsInv s
@@ -28,6 +47,7 @@ structure OutInv (fx : Fixes) (U : List (List Glyph)) (tag : Tag) (dls : List Sy
     s0.named.lookup n = some id ∨ ∃ reg l, ((reg, Src.Item.defn l), id) ∈ wout.zip ids ∧ l.name = some n
   grew : Grew s0 s
   active : s.active = some (evs.foldl evStep (a0 tag dls))
+  refsBack : RefsBack s0 wout
 
 theorem mem_zip_append_left {α β : Type} {as as' : List α} {bs bs' : List β} {x : α × β} (h : x ∈ as.zip bs) :
     x ∈ (as ++ as').zip (bs ++ bs') := by
@@ -63,7 +83,8 @@ theorem OutInv.same {fx : Fixes} {U : List (List Glyph)} {tag : Tag} {dls : List
   namedBelow := by intro n id hn; rw [hnamed] at hn; exact (h.namedBelow n id hn).mono hg
   namedNew := by rw [hnamed]; exact h.namedNew
   grew := h.grew.trans hg
-  active := by rw [hact]; exact h.active }
+  active := by rw [hact]; exact h.active
+  refsBack := h.refsBack }
 
 theorem foldl_evStep_snoc (a : Active) (evs : List Ev) (e : Ev) : (evs ++ [e]).foldl evStep a = evStep (evs.foldl evStep a) e := by
   simp [List.foldl_append]
@@ -135,7 +156,8 @@ theorem OutInv.emit {fx : Fixes} {U : List (List Glyph)} {tag : Tag} {dls : List
         · exact Or.inr ⟨reg, l, mem_zip_append_left hm, hl⟩
       grew := h.grew.trans hgrew
       active := by
-        rw [hact, h.active, foldl_evStep_snoc]; rfl }
+        rw [hact, h.active, foldl_evStep_snoc]; rfl
+      refsBack := h.refsBack.snoc _ (by intro reg n e; cases e) }
   simp only [Emits] at hem
   by_cases hpos : (headKind rules).isPos = true
   · simp only [hpos, ↓reduceIte] at hem
@@ -247,7 +269,8 @@ theorem OutInv.named {fx : Fixes} {U : List (List Glyph)} {tag : Tag} {dls : Lis
         · exact Or.inl h1
         · exact Or.inr ⟨reg, l, mem_zip_append_left hm, hl⟩
     grew := h.grew.trans hgrew
-    active := by rw [hact, h.active, foldl_evStep_snoc]; rfl }
+    active := by rw [hact, h.active, foldl_evStep_snoc]; rfl
+    refsBack := h.refsBack.snoc _ (by intro reg n e; cases e) }
 
 /-- a reference to a named lookup -/
 theorem OutInv.ref {fx : Fixes} {U : List (List Glyph)} {tag : Tag} {dls : List Sys} {s0 : St}
@@ -303,7 +326,14 @@ theorem OutInv.ref {fx : Fixes} {U : List (List Glyph)} {tag : Tag} {dls : List 
         grew := h.grew
         active := by
           show addIdToActive s.active id = _
-          rw [h.active, foldl_evStep_snoc]; rfl }
+          rw [h.active, foldl_evStep_snoc]; rfl
+        refsBack := by
+          apply h.refsBack.snoc
+          intro reg n' e
+          cases e
+          rcases h.namedNew n id hq with h1 | ⟨reg', l, hm, hl⟩
+          · exact Or.inl (by rw [h1]; rfl)
+          · exact Or.inr ⟨reg', l, (List.of_mem_zip hm).1, hl⟩ }
 
 /-- a `script` / `language` statement (after the current lookup has been flushed) -/
 theorem OutInv.sys {fx : Fixes} {U : List (List Glyph)} {tag : Tag} {dls : List Sys} {s0 : St}
@@ -325,6 +355,7 @@ theorem OutInv.sys {fx : Fixes} {U : List (List Glyph)} {tag : Tag} {dls : List 
   grew := h.grew
   active := by
     show s.active.map (·.setSystem sys ex) = _
-    rw [h.active, foldl_evStep_snoc]; rfl }
+    rw [h.active, foldl_evStep_snoc]; rfl
+  refsBack := h.refsBack }
 
 end Fontc.FeaCompile
